@@ -136,7 +136,11 @@ def r2_pipeline(ctx):
         ctx.unrecognised(NB, "BaseNode.modify_value", "the new raw value is cast by the definition's caster", "no store to the value of the copied typed value found")
     else:
         ctx.check(casts == {want_cast}, NB, "BaseNode.modify_value", "the new raw value is cast by the definition's caster", detail=sorted(casts), expected=want_cast)
-    if not numeric or any(n is None for n in numeric):
+    narrow = sorted({norm(t.resolved) for q in ps for t in q.tests() if norm(t.resolved) in (f"isinstance({COPY}, FloatType)", f"isinstance({COPY}, IntegerType)")})
+    if narrow and (not numeric or any(n is None for n in numeric)):
+        ctx.violated(NB, "BaseNode.modify_value", "integer and float nodes both take the assignment's unit and are converted into the definition's unit",
+                     detail=narrow, expected=f"isinstance({COPY}, (IntegerType, FloatType))")
+    elif not numeric or any(n is None for n in numeric):
         ctx.unrecognised(NB, "BaseNode.modify_value", "numeric branch", "unit handling block not found")
     else:
         want = [f"unit={p_node}.units_raw", f"value.convert(self.units_raw, {p_env})"]
